@@ -237,3 +237,151 @@ Definition c03_case (id : Z) (c : cfg) (es : list event) (os : list obs) (final 
   let '(mask, first, s) := compare_run c init es os 1 0 0 in
   let '(step_, code) := shadow_run [] os 1 in
   [id; mask; first; step_; code; Z.of_nat (List.length es)].
+
+(* ---- C04: composition, evaluated on the implementation's own resources ---- *)
+
+Definition option_dec {A} (d : forall a b : A, {a = b} + {a <> b}) : forall a b : option A, {a = b} + {a <> b}.
+Proof. decide equality. Defined.
+
+Definition key_of_ing (i : ingress) : string := mkey (i_meta i).
+
+(* the paths a minion serves *)
+Definition true_paths (m : minion_cfg) : list string :=
+  filter_map (fun kv : string * bool => if snd kv then Some (fst kv) else None) (mc_valid_paths m).
+
+(* claims (path, minion) of the minions of one master host, in key order *)
+Definition path_claims (is_ : smap ingress) (host : string) : list (string * hold) :=
+  flat_map (fun i => map (fun p => (p, (key_of_ing i, i_meta i))) (i_paths i)) (minions_of is_ host).
+
+Definition path_owner (is_ : smap ingress) (host p : string) : option string :=
+  option_map fst (least (claimants (path_claims is_ host) p)).
+
+Definition str_list_eqb := eqb_of (list_eq_dec string_dec).
+
+(* a master is rendered with exactly the minions of its host; each path is served by exactly the
+   least claimant; a regular Ingress has no minions; only the owner of the host composes *)
+Definition ing_composition_ok (o : objs) (obs_hosts : list (string * string)) (c : ing_cfg) : bool :=
+  let i := ic_ing c in
+  if ic_master c then
+    opt_str_eqb (lookup (host0 i) obs_hosts) (Some (ing_rkey i)) &&
+    str_list_eqb (map (fun m => key_of_ing (mc_ing m)) (ic_minions c))
+                 (map key_of_ing (minions_of (o_ings o) (host0 i))) &&
+    forallb (fun m => eqb_of (option_dec ingress_dec) (lookup (key_of_ing (mc_ing m)) (o_ings o)) (Some (mc_ing m))) (ic_minions c) &&
+    forallb (fun m =>
+      forallb (fun p => Bool.eqb (existsb (String.eqb p) (true_paths m))
+                                 (opt_str_eqb (path_owner (o_ings o) (host0 i) p) (Some (key_of_ing (mc_ing m)))))
+              (i_paths (mc_ing m)) &&
+      forallb (fun p => existsb (String.eqb p) (i_paths (mc_ing m))) (true_paths m))
+      (ic_minions c)
+  else match ic_minions c with [] => true | _ => false end.
+
+(* a VirtualServer is rendered with exactly the referenced, existing routes whose host equals its own
+   and whose subroutes lie under the referencing route (plus converted challenge Ingresses), each once *)
+Fixpoint nodup_keys (l : list string) : bool :=
+  match l with [] => true | x :: r => negb (existsb (String.eqb x) r) && nodup_keys r end.
+
+Definition vs_composition_ok (cf : cfg) (o : objs) (obs_hosts : list (string * string)) (c : vs_cfg) : bool :=
+  let v := vc_vs c in
+  let expected := fst (build_vsrs (o_vsrs o) v (v_routes v)) +++
+                  filter (fun r => String.eqb (v_host v) (r_host r)) (challenge_vsrs cf (o_vss o) (o_ings o)) in
+  opt_str_eqb (lookup (v_host v) obs_hosts) (Some (vs_rkey v)) &&
+  eqb_of (list_eq_dec vsroute_dec) (vc_vsrs c) expected &&
+  forallb (fun r => String.eqb (r_host r) (v_host v)) (vc_vsrs c).
+
+
+Definition composition_ok (cf : cfg) (o : objs) (ob : obs) : bool :=
+  forallb (fun r => match r with
+                    | RIng c => ing_composition_ok o (ob_hosts ob) c
+                    | RVS c => vs_composition_ok cf o (ob_hosts ob) c
+                    | RTS _ => true end) (ob_res ob).
+
+(* F12: the same route attached twice to one VirtualServer *)
+Definition vsrs_once (ob : obs) : bool :=
+  forallb (fun r => match r with
+                    | RVS c => nodup_keys (map (fun x => mkey (r_meta x)) (vc_vsrs c))
+                    | _ => true end) (ob_res ob).
+
+Fixpoint composition_run (cf : cfg) (o : objs) (es : list event) (os : list obs) (i : Z) : Z * Z :=
+  match es, os with
+  | e :: er, ob :: orest =>
+      let o' := apply_event o e in
+      if negb (composition_ok cf o' ob) then (i, 1)
+      else if negb (vsrs_once ob) then (i, 2)
+      else composition_run cf o' er orest (i + 1)
+  | _, _ => (0, 0)
+  end.
+
+Definition c04_case (id : Z) (c : cfg) (es : list event) (os : list obs) (final : obs)
+           (alts : list (list event * obs)) : list Z :=
+  let '(mask, first, s) := compare_run c init es os 1 0 0 in
+  let '(step_, code) := composition_run c objs0 es os 1 in
+  let oi := forallb (fun a => obs_final_eqb final (snd a)) alts in
+  [id; mask; first; step_; code; if oi then 1 else 0; Z.of_nat (List.length es)].
+
+(* ---- C16: the controller acts only on resources of its own class ---- *)
+
+(* HasCorrectIngressClass with ingress class "nginx": for an Ingress the annotation (if non-empty)
+   takes precedence over spec.ingressClassName and an empty class is NOT accepted; for the custom
+   resources the class field may be empty *)
+Definition has_class (own : string) (is_ingress : bool) (ann field : option string) : bool :=
+  if is_ingress then
+    let a := match ann with Some x => x | None => "" end in
+    let cl := if String.eqb a "" then match field with Some f => f | None => "" end else a in
+    String.eqb cl own
+  else
+    let cl := match field with Some f => f | None => "" end in
+    String.eqb cl own || String.eqb cl "".
+
+Definition event_obj (e : event) : option (string * bool) :=   (* key with kind, class ok *)
+  match e with
+  | EIng i cls _ => Some (ing_rkey i, cls)
+  | EVS v cls _ => Some (vs_rkey v, cls)
+  | EVSR r cls _ => Some (vsr_pkey r, cls)
+  | ETS t cls _ => Some (ts_rkey t, cls)
+  | _ => None
+  end.
+
+(* a foreign-class event is answered silently: nothing but delete changes without error and without
+   warnings for that object (a delete change that carries warnings makes the controller write a
+   Rejected event and status for an object it does not own), and no problem about it *)
+Definition silent_for (k : string) (ob : obs) : Z :=
+  if negb (forallb (fun c => negb (String.eqb (rkey (c_res c)) k) ||
+                             (match c_op c with Delete => true | AddOrUpdate => false end && negb (c_err c))) (ob_changes ob)) then 1
+  else if negb (forallb (fun c => negb (String.eqb (rkey (c_res c)) k) ||
+                                  match res_warnings (c_res c) with [] => true | _ => false end) (ob_changes ob)) then 2
+  else if negb (forallb (fun p => negb (String.eqb (p_obj p) k)) (ob_problems ob)) then 3
+  else 0.
+
+Definition obs_eq_mask (a b : obs) : Z :=
+  (if eqb_of (list_eq_dec change_dec) (ob_changes a) (ob_changes b) then 0 else 1) +
+  (if eqb_of (list_eq_dec problem_dec) (ob_problems a) (ob_problems b) then 0 else 2) +
+  (if eqb_of view_dec (ob_hosts a) (ob_hosts b) then 0 else 4) +
+  (if eqb_of view_dec (ob_lhosts a) (ob_lhosts b) then 0 else 8) +
+  (if eqb_of (list_eq_dec resource_dec) (ob_res a) (ob_res b) then 0 else 16).
+
+(* returns (first step where main and erased differ, mask there, first step with a non-silent answer, its code) *)
+Fixpoint c16_run (es : list event) (os os' : list obs) (i : Z) (acc : Z * Z * Z * Z) : Z * Z * Z * Z :=
+  match es, os, os' with
+  | e :: er, o :: orest, o' :: orest' =>
+      let '(d1, m1, d2, c2) := acc in
+      let m := obs_eq_mask o o' in
+      let sil := match event_obj e with
+                 | Some (k, false) => silent_for k o
+                 | _ => 0 end in
+      c16_run er orest orest' (i + 1)
+              (if (d1 =? 0) && negb (m =? 0) then i else d1, if (d1 =? 0) && negb (m =? 0) then m else m1,
+               if (d2 =? 0) && negb (sil =? 0) then i else d2, if (d2 =? 0) && negb (sil =? 0) then sil else c2)
+  | _, _, _ => acc
+  end.
+
+(* raw class inputs per event: (is_ingress, annotation, field, observed verdict of HasCorrectIngressClass) *)
+Definition class_pred_ok (raw : list (bool * option string * option string * bool)) : bool :=
+  forallb (fun x => match x with (ing, ann, field, seen) => Bool.eqb (has_class "nginx" ing ann field) seen end) raw.
+
+Definition c16_case (id : Z) (c : cfg) (es : list event) (os : list obs) (final : obs)
+           (alts : list (list event * obs)) (es' : list event) (os' : list obs)
+           (raw : list (bool * option string * option string * bool)) : list Z :=
+  let '(mask, first, s) := compare_run c init es os 1 0 0 in
+  let '(d1, m1, d2, c2) := c16_run es os os' 1 (0, 0, 0, 0) in
+  [id; mask; first; d1; m1; d2; c2; if class_pred_ok raw then 1 else 0;
+   Z.of_nat (List.length (filter (fun e => match event_obj e with Some (_, false) => true | _ => false end) es))].
